@@ -86,7 +86,7 @@ func baseConfig(tier string) *Config {
 		MaxPaths:  60_000,
 		TimeoutMs: 20_000,
 		Workers:   runtime.NumCPU(),
-		SolverBin: envOr("VERIF_SOLVER", "z3"),
+		SolverBin: envOr("VERIF_SOLVER", "z3-new"),
 	}
 	if tier == "thorough" {
 		cfg.MaxSteps = 20_000_000
